@@ -136,12 +136,18 @@ def _run(case, P, nprocs, schedule):
     return out
 
 
-def _close(name, a, b, what, rtol, key, mask=None):
+def _close(name, a, b, what, rtol, key, mask=None, rel_mask=None, elementwise=False):
+    """|a-b| <= rtol * scale;  where rel_mask (or elementwise) is set the bound is rtol * |b| element by element."""
     scale = float(np.nanmax(np.abs(b))) + 1e-300
     d = np.abs(a - b)
     if mask is not None:
         d = np.where(mask, d, 0.0)
-    bad = ~(d <= rtol * scale)
+    bound = np.full(np.shape(b), rtol * scale)
+    if elementwise:
+        bound = rtol * np.maximum(np.abs(a), np.abs(b)) + 1e-18 * scale
+    elif rel_mask is not None:
+        bound = np.where(rel_mask, rtol * np.abs(b) + 1e-300, bound)
+    bad = ~(d <= bound)
     if bad.any():
         idx = tuple(int(x) for x in np.argwhere(bad)[0])
         raise Violation(key, "%s: %s differs at global index %s: %r vs %r (|diff| %.3e, scale %.3e; %d of %d points)"
@@ -168,10 +174,11 @@ def op_pred(case):
     pgr = ref.pargrad(Phi)
     _close("pargrad", serial["pargrad"], np.transpose(pgr, (0, 2, 1)), "serial vs reference (own radius)", 1e-9,
            "C05:ref:pargrad")
-    _close("vpar", serial["vpar"], ref.vpar(F, pgr, half), "serial gridStep vs per-line reference (own r,z,theta)", 1e-9,
-           "C05:ref:vpar")
-    _close("vpar_keep", serial["vpar_keep"], ref.vpar(F, pgr, half), "serial gridStepKeepGradient vs reference", 1e-9,
-           "C05:ref:vpar_keep")
+    vref = ref.vpar(F, pgr, half)
+    _close("vpar", serial["vpar"], vref, "serial gridStep vs per-line reference (own r,z,theta)", 1e-9,
+           "C05:ref:vpar", rel_mask=ref.last_outside)
+    _close("vpar_keep", serial["vpar_keep"], vref, "serial gridStepKeepGradient vs reference", 1e-9,
+           "C05:ref:vpar_keep", rel_mask=ref.last_outside)
     pol, ok = ref.poloidal(F, Phi, half)
     _close("pol", serial["pol"], pol, "serial gridStep vs per-slice reference (own v, z)", 1e-8, "C05:ref:pol", mask=ok)
     _close("rho", serial["rho"], ref.rho(F), "serial vs reference density (own radius)", 1e-10, "C05:ref:rho")
@@ -192,7 +199,7 @@ def op_pred(case):
         used = dist["nprocs"]
         tag = "grid %s%s P=%d" % (used, " (own choice)" if nprocs is None else "", P)
         for name in NAMES4 + NAMES3:
-            _close(name, dist[name], serial[name], "%s vs serial" % tag, RTOL, "C05:decomp:" + name)
+            _close(name, dist[name], serial[name], "%s vs serial" % tag, RTOL, "C05:decomp:" + name, elementwise=True)
         labels.append("P=%d" % P)
         if used[0] > 1:
             labels.append("r-split")
@@ -276,7 +283,7 @@ def driver_pred(case):
         if sorted(res) != sorted(serial):
             raise Violation("C05:driver:file-set", "P=%d wrote %s, serial wrote %s" % (P, sorted(res), sorted(serial)))
         for fn in sorted(res):
-            _close(fn, res[fn], serial[fn], "driver on %d ranks vs serial" % P, RTOL, "C05:driver:" + fn.split("_")[0])
+            _close(fn, res[fn], serial[fn], "driver on %d ranks vs serial" % P, RTOL, "C05:driver:" + fn.split("_")[0], elementwise=True)
         labels.append("P=%d" % P)
     return {"nontrivial": len(results) > 1 and cfg["iotaVal"] != 0, "labels": labels + ["steps=%d" % case["steps"]],
             "evals": len(results)}
